@@ -76,6 +76,8 @@ func repAddr(t string) (uint8, []byte) {
 		return protocol.AddrTypeDomain, append([]byte{6}, "ex.com"...)
 	case "domain-empty":
 		return protocol.AddrTypeDomain, []byte{0}
+	case "ipv4-mapped":
+		return protocol.AddrTypeIPv6, mapped4(10, 1, 2, 3)
 	}
 	return 0, nil
 }
@@ -119,13 +121,13 @@ func representatives() []rep {
 		routes["ipv4"], routes["ipv6"], {AddressFamily: protocol.AddrFamilyDomain, Prefix: []byte{7}, Metric: 1}, routes["agent"], routes["unknown"],
 		{AddressFamily: protocol.AddrFamilyForward, Prefix: make([]byte, 16), Metric: 2}}})
 	// address-typed messages
-	for _, t := range []string{"ipv4", "ipv6", "domain", "domain-empty"} {
+	for _, t := range []string{"ipv4", "ipv6", "domain", "domain-empty", "ipv4-mapped"} {
 		at, ab := repAddr(t)
 		add("StreamOpen", "addr-"+t, openMsg{ReqID: 77, AType: at, Addr: ab, Port: 443, TTL: 9, Path: path, Key: key32(0x11)})
 		add("UDPOpen", "addr-"+t, openMsg{ReqID: 78, AType: at, Addr: ab, Port: 53, TTL: 8, Path: path[:1], Key: key32(0x12)})
 		add("UDPDatagram", "addr-"+t, &protocol.UDPDatagram{AddressType: at, Address: ab, Port: 53, Data: []byte{1, 2, 3}})
 	}
-	for _, t := range []string{"ipv4", "ipv6", "none"} {
+	for _, t := range []string{"ipv4", "ipv6", "none", "ipv4-mapped"} {
 		at, ab := repAddr(t)
 		add("StreamOpenAck", "bound-"+t, ackMsg{ReqID: 5, AType: at, Addr: ab, Port: 8080, Key: key32(0x21)})
 		add("UDPOpenAck", "bound-"+t, ackMsg{ReqID: 6, AType: at, Addr: ab, Port: 8081, Key: key32(0x22)})
@@ -139,6 +141,9 @@ func representatives() []rep {
 	add("ControlRequest", "no-data", &protocol.ControlRequest{RequestID: 8, ControlType: 2, TargetAgent: idn(0xd4)})
 	add("ControlResponse", "data", &protocol.ControlResponse{RequestID: 8, ControlType: 5, Success: true, Data: []byte("ok!")})
 	add("ICMPOpen", "ipv4", &protocol.ICMPOpen{RequestID: 4, DestIP: []byte{8, 8, 8, 8}, TTL: 7, RemainingPath: path, EphemeralPubKey: key32(0x44)})
+	add("ICMPOpen", "ipv4-mapped-16-bytes", &protocol.ICMPOpen{RequestID: 4, DestIP: mapped4(8, 8, 4, 4), TTL: 7, RemainingPath: path[:1], EphemeralPubKey: key32(0x46)})
+	add("ICMPOpen", "ipv6", &protocol.ICMPOpen{RequestID: 4, DestIP: []byte{0x20, 1, 0xd, 0xb8, 0, 0, 0, 0, 0, 0, 0, 0, 0, 0, 0, 9}, TTL: 7, EphemeralPubKey: key32(0x47)})
+	add("ICMPEcho", "reply-from-mapped", &protocol.ICMPEcho{Identifier: 3, Sequence: 4, IsReply: true, SrcIP: mapped4(8, 8, 4, 4), Data: []byte("x")})
 	add("ICMPOpenAck", "key", &protocol.ICMPOpenAck{RequestID: 4, EphemeralPubKey: key32(0x45)})
 	add("ICMPEcho", "reply", &protocol.ICMPEcho{Identifier: 1, Sequence: 2, IsReply: true, SrcIP: []byte{8, 8, 8, 8}, Data: []byte("ping")})
 	add("ICMPEcho", "request", &protocol.ICMPEcho{Identifier: 1, Sequence: 2, Data: []byte("p")})
@@ -217,9 +222,11 @@ func (rn *runner) truncationSweeps() {
 	enc := map[string][]byte{}
 	for _, r := range reps {
 		k := rn.kinds[r.kind]
-		b, err, pan := encode(k, r.msg)
-		if err != nil || pan != "" {
-			rn.c.Fail("sweep-construction-"+r.kind, fmt.Sprintf("representative %s does not encode: %v %s", r.name, err, pan), replay{Kind: r.kind, Mode: "fixed:sweep:" + r.name})
+		// every representative is within its wire limits: encoder output compared with the
+		// model and checked by the round-trip monitor as well
+		b := rn.runEnc(k, r.msg, true, true, replay{Mode: "fixed:sweep:" + r.name})
+		if b == nil {
+			rn.c.Fail("sweep-construction-"+r.kind, fmt.Sprintf("representative %s does not encode", r.name), replay{Kind: r.kind, Mode: "fixed:sweep:" + r.name})
 			continue
 		}
 		enc[r.kind+"/"+r.name] = b
